@@ -171,6 +171,10 @@ def materialize(struct, as_kind="poly"):
     arr = numpy.array(col, dtype=dtype).reshape(tuple(struct["shape"]))
     if as_kind == "ndarray":
         return arr
+    if as_kind == "ndarray_ro":
+        # a read-only array, as numpy.frombuffer / broadcast_to / a caller's setflags(write=False) produce
+        arr.setflags(write=False)
+        return arr
     if as_kind == "list":
         return arr.tolist()
     if as_kind == "list_mixed":
